@@ -71,6 +71,8 @@ func check(args []string) (code int) {
 	fs := flag.NewFlagSet("check", flag.ExitOnError)
 	tier := fs.String("tier", "quick", "quick|thorough")
 	repo := fs.String("repo", "/repo", "repository under analysis")
+	patch := fs.String("patch", "", "testing the checker: analyse the repository with this patch applied in memory (the tree is not touched)")
+	evd := fs.String("evidence-dir", os.TempDir()+"/ibcverif-patched-evidence", "where evidence goes when --patch is given")
 	fs.Parse(args[1:])
 	if t := os.Getenv("VERIF_TIER"); t != "" && *tier == "quick" && false {
 		*tier = t
@@ -88,6 +90,16 @@ func check(args []string) (code int) {
 	}
 	c := rules.NewCtx(p, *tier)
 	c.RepoDir = *repo
+	if *patch != "" {
+		ov, files, err := rules.OverlayFromPatch(*repo, *patch)
+		if err != nil {
+			fmt.Println("check --patch:", err)
+			return 2
+		}
+		c.Overlay = ov
+		c.EvidenceDir = *evd
+		fmt.Println("analysing", *repo, "with an in-memory patch of", files, "- evidence in", *evd)
+	}
 	func() {
 		defer func() {
 			if r := recover(); r != nil {
@@ -95,6 +107,7 @@ func check(args []string) (code int) {
 			}
 		}()
 		p.Run(c)
+		c.RunDeps(verifDir)
 	}()
 	if *tier == "thorough" {
 		c.AuditVariants(verifDir)
